@@ -45,6 +45,10 @@ func NewInitiator(conn net.Conn, handler InitiatorHandler, bufSize int, writeDea
 func (c *Initiator) Close() {
 	c.conn.Close()
 	c.cancel()
+	// The handler's context is not derived from the client's (unlike on the acceptor side): without
+	// this it outlived the connection, the session timers kept running and every later Send blocked
+	// on the outgoing queue that no writer drains any more.
+	c.handler.Stop()
 }
 
 // Send is used to send a FIX message.
